@@ -13,6 +13,11 @@
 //!
 //! `read-order` (C06): the order in which `QueryServer::read` → `Backend::read` →
 //! `IdlArcSqlite::read` take their read snapshots, and how the SQLite read transaction is begun.
+//!
+//! `reload-dispatch` (C06): the top-level statements of `QueryServerWriteTransaction::reload` (first
+//! statement of every commit): the list of `if self.changed_flags.intersects(FLAGS) { self.reload_x()?; … }`
+//! checks — flags tested, reload functions called, and whether the check hangs on the `else` of the
+//! previous one (`chained`) — and the flags cleared at the end.
 use crate::util::*;
 use quote::ToTokens;
 use syn::{Expr, Stmt};
@@ -21,6 +26,7 @@ pub fn run(item: &str, repo: &str, out: &str) -> Option<Result<String, String>> 
     match item {
         "commit-order" => Some(commit_order(repo, out)),
         "read-order" => Some(read_order(repo, out)),
+        "reload-dispatch" => Some(reload_dispatch(repo, out)),
         _ => None,
     }
 }
@@ -718,5 +724,161 @@ fn read_order(repo: &str, out: &str) -> Result<String, String> {
     Ok(format!(
         "ReadOrder: [{}] deferred={deferred}",
         flat.iter().map(|(t, _)| t.trim_start_matches(".cell .").trim_start_matches('.').to_string()).collect::<Vec<_>>().join(", ")
+    ))
+}
+
+// ------------------------------------------------------------------------------------------------
+// reload-dispatch
+// ------------------------------------------------------------------------------------------------
+
+/// `ChangeFlag::A | ChangeFlag::B | …` → ["A", "B", …]
+fn change_flags(e: &Expr, out: &mut Vec<String>) -> Result<(), String> {
+    match e {
+        Expr::Paren(p) => change_flags(&p.expr, out),
+        Expr::Binary(b) if matches!(b.op, syn::BinOp::BitOr(_)) => {
+            change_flags(&b.left, out)?;
+            change_flags(&b.right, out)
+        }
+        Expr::Path(_) => match path_string(e) {
+            Some(p) if p.starts_with("ChangeFlag::") => {
+                out.push(p.trim_start_matches("ChangeFlag::").to_string());
+                Ok(())
+            }
+            _ => Err(format!("reload(): `{}` is not a ChangeFlag constant", toks(e))),
+        },
+        _ => Err(format!("reload(): flag expression `{}` not recognised", toks(e))),
+    }
+}
+
+/// `self.changed_flags.<method>(FLAGS)` → FLAGS
+fn changed_flags_call(e: &Expr, method: &str) -> Option<Result<Vec<String>, String>> {
+    if let Expr::MethodCall(m) = e {
+        if m.method == method && toks(&m.receiver) == "self . changed_flags" && m.args.len() == 1 {
+            let mut v = vec![];
+            return Some(change_flags(&m.args[0], &mut v).map(|_| v));
+        }
+    }
+    None
+}
+
+/// every `self.<name>(…)` call inside a block, in source order
+fn self_calls(b: &syn::Block) -> Vec<String> {
+    struct V(Vec<String>);
+    impl<'ast> syn::visit::Visit<'ast> for V {
+        fn visit_expr_method_call(&mut self, m: &'ast syn::ExprMethodCall) {
+            syn::visit::visit_expr_method_call(self, m);
+            if toks(&m.receiver) == "self" {
+                self.0.push(m.method.to_string());
+            }
+        }
+    }
+    let mut v = V(vec![]);
+    syn::visit::Visit::visit_block(&mut v, b);
+    v.0
+}
+
+struct ReloadCheck {
+    flags: Vec<String>,
+    calls: Vec<String>,
+    chained: bool,
+}
+
+fn reload_if(i: &syn::ExprIf, chained: bool, out: &mut Vec<ReloadCheck>) -> Result<(), String> {
+    let flags = match changed_flags_call(&i.cond, "intersects") {
+        Some(r) => r?,
+        None => return Err(format!("reload(): top-level `if {}` is not `self.changed_flags.intersects(…)`", toks(&i.cond))),
+    };
+    let calls = self_calls(&i.then_branch);
+    if calls.is_empty() || !calls.iter().all(|c| c.starts_with("reload_") || c == "reindex") {
+        return Err(format!("reload(): check of {flags:?} calls {calls:?}; expected reload_* functions"));
+    }
+    out.push(ReloadCheck { flags, calls, chained });
+    match &i.else_branch {
+        None => Ok(()),
+        Some((_, e)) => match &**e {
+            // `else if …`: the next check runs only when this one did not
+            Expr::If(n) => reload_if(n, true, out),
+            // an `else` block without statements (comments only) changes nothing
+            Expr::Block(b) if b.block.stmts.is_empty() => Ok(()),
+            o => Err(format!("reload(): `else` branch with statements after the check of {:?}: `{}`", out.last().map(|c| c.flags.clone()), toks(o).chars().take(80).collect::<String>())),
+        },
+    }
+}
+
+fn reload_dispatch(repo: &str, out: &str) -> Result<String, String> {
+    let f_qs = parse_file(repo, "server/lib/src/server/mod.rs")?;
+    let f = find_fn(&f_qs, "QueryServerWriteTransaction::reload")?;
+    let mut checks: Vec<ReloadCheck> = vec![];
+    let mut cleared: Vec<String> = vec![];
+    let n = f.block.stmts.len();
+    for (k, st) in f.block.stmts.iter().enumerate() {
+        match st {
+            Stmt::Expr(Expr::If(i), _) => reload_if(i, false, &mut checks)?,
+            Stmt::Expr(e, Some(_)) => match changed_flags_call(e, "remove") {
+                Some(r) => cleared.extend(r?),
+                None => return Err(format!("reload(): statement `{}` not recognised", toks(e).chars().take(80).collect::<String>())),
+            },
+            Stmt::Expr(e, None) if k + 1 == n && toks(e) == "Ok (())" => {}
+            o => return Err(format!("reload(): statement `{}` not recognised", toks(o).chars().take(80).collect::<String>())),
+        }
+    }
+    if checks.is_empty() || cleared.is_empty() {
+        return Err("reload(): no checks or no cleared flags found".into());
+    }
+    // the commit must start with it
+    let cm = toks(&find_fn(&f_qs, "QueryServerWriteTransaction::commit")?.block);
+    if !cm.starts_with("{ self . reload () ? ;") {
+        return Err("QueryServerWriteTransaction::commit does not begin with `self.reload()?;`".into());
+    }
+    let mut flags: Vec<String> = vec![];
+    let mut fns: Vec<String> = vec![];
+    for c in &checks {
+        for x in &c.flags {
+            if !flags.contains(x) {
+                flags.push(x.clone());
+            }
+        }
+        for x in &c.calls {
+            if !fns.contains(x) {
+                fns.push(x.clone());
+            }
+        }
+    }
+    for x in &cleared {
+        if !flags.contains(x) {
+            flags.push(x.clone());
+        }
+    }
+    let lf = |x: &String| camel(&x.to_lowercase());
+    let mut body = String::from("namespace Kanidm.Gen.ReloadDispatch\n");
+    body += "/-- `ChangeFlag` constants named in `QueryServerWriteTransaction::reload`. -/\ninductive Flag where\n";
+    for x in &flags {
+        body += &format!("  | {}\n", lf(x));
+    }
+    body += "deriving DecidableEq, Repr\n/-- The functions `reload()` calls. -/\ninductive Reload where\n";
+    for x in &fns {
+        body += &format!("  | {}\n", camel(x));
+    }
+    body += "deriving DecidableEq, Repr\n";
+    body += "/-- One `if self.changed_flags.intersects(flags) { calls }` of `reload()`; `chained`: it is the `else if` of the\nprevious check, i.e. skipped whenever the previous check ran. -/\nstructure Check where\n  flags : List Flag\n  calls : List Reload\n  chained : Bool\nderiving DecidableEq, Repr\n";
+    body += "/-- The checks of `reload()` in source order. -/\ndef checks : List Check := [\n";
+    for (i, c) in checks.iter().enumerate() {
+        body += &format!(
+            "  ⟨[{}], [{}], {}⟩{}\n",
+            c.flags.iter().map(|x| format!(".{}", lf(x))).collect::<Vec<_>>().join(", "),
+            c.calls.iter().map(|x| format!(".{}", camel(x))).collect::<Vec<_>>().join(", "),
+            c.chained,
+            if i + 1 == checks.len() { "" } else { "," }
+        );
+    }
+    body += "]\n/-- The flags `reload()` clears at its end (`self.changed_flags.remove(…)`). -/\ndef cleared : List Flag := [";
+    body += &cleared.iter().map(|x| format!(".{}", lf(x))).collect::<Vec<_>>().join(", ");
+    body += "]\nend Kanidm.Gen.ReloadDispatch\n";
+    write_generated(out, "ReloadDispatch", "server/lib/src/server/mod.rs (QueryServerWriteTransaction::reload)", &body)?;
+    Ok(format!(
+        "ReloadDispatch: {} checks [{}], cleared {:?}",
+        checks.len(),
+        checks.iter().map(|c| format!("{}{}→{}", if c.chained { "else " } else { "" }, c.flags.join("|"), c.calls.join("+"))).collect::<Vec<_>>().join("; "),
+        cleared
     ))
 }
